@@ -7,6 +7,7 @@ import (
 	"math/rand"
 	"os"
 	"path/filepath"
+	"sync/atomic"
 	"time"
 
 	badger "github.com/dgraph-io/badger/v4"
@@ -87,6 +88,195 @@ func scenarioResurrect(c *core.Ctx, sigPrefix, work string, idx int, r *rand.Ran
 	return true
 }
 
+// scenarioDeleteDuringRewrite: the key is deleted between the scan and the write-back of a GC rewrite
+// (pause hook), the tombstone is flushed and compacted into a base level that is NOT the last level
+// and has nothing overlapping below; the deleted key must stay deleted when GC returns. (No further
+// compaction afterwards: that is the listed delete-then-gc-then-compact finding.)
+func scenarioDeleteDuringRewrite(c *core.Ctx, sigPrefix, work string, idx int, r *rand.Rand) (ran bool) {
+	dir := filepath.Join(work, fmt.Sprintf("during%d", idx))
+	_ = os.MkdirAll(dir, 0o755)
+	defer os.RemoveAll(dir)
+	o, _ := drvOptions(dir, 0)
+	o.MemTableSize = 1 << 20
+	o.ValueThreshold = 32
+	o.ValueLogMaxEntries = 24
+	o.MaxLevels = 4 + idx%2
+	o.NumLevelZeroTables = 1
+	db, err := drv.Open(o, false)
+	if err != nil {
+		c.Inconclusive("open: " + err.Error())
+		return false
+	}
+	sig := sigPrefix + "|scenario:delete-during-gc-rewrite"
+	w := &drv.World{C: c, Sig: sig, DB: db, Opt: o, M: model.New(), R: r, NextTs: 5}
+	defer func() { _ = w.DB.Close() }()
+	// filler with inline values, pushed to the last level so that the base level moves above it
+	for b := 0; b < 8; b++ {
+		var specs []drv.WriteSpec
+		for i := 0; i < 120; i++ {
+			specs = append(specs, drv.WriteSpec{Key: []byte(fmt.Sprintf("a%02d-%04d", b, i)), Len: 24})
+		}
+		if _, err := w.Commit(specs); err != nil {
+			c.Inconclusive("commit: " + err.Error())
+			return false
+		}
+	}
+	w.Flush()
+	for i := 0; i < 12; i++ {
+		moved := false
+		for l := 0; l < o.MaxLevels-1; l++ {
+			if w.CompactForce(l, 1) {
+				moved = true
+			}
+		}
+		if !moved {
+			break
+		}
+	}
+	// victim + junk in value-log file 1, garbage, discard statistics
+	if _, err := w.Commit([]drv.WriteSpec{{Key: []byte("zvictim"), Len: 1500}}); err != nil {
+		return false
+	}
+	for i := 0; i < 18; i++ {
+		_, _ = w.Commit([]drv.WriteSpec{{Key: []byte(fmt.Sprintf("zjunk%02d", i)), Len: 2000}})
+	}
+	w.Flush()
+	for i := 0; i < 18; i++ {
+		_, _ = w.Commit([]drv.WriteSpec{{Key: []byte(fmt.Sprintf("zjunk%02d", i)), Len: 2000}})
+	}
+	w.Flush()
+	w.SettleWatermark()
+	w.CompactForce(0, 1)
+	base := w.DB.VerifBaseLevel()
+	if base >= o.MaxLevels-1 {
+		c.Inconclusive(fmt.Sprintf("scenario delete-during-gc-rewrite: base level %d is the last level", base))
+		return false
+	}
+	if os.Getenv("VERIF_DEBUG") != "" {
+		fmt.Println("DEBUG before GC base=", base, w.Witness()["tables"])
+	}
+	var hookErr error
+	fired := false
+	w.DB.VerifSetGCPauseHook(func() {
+		if fired {
+			return
+		}
+		fired = true
+		if _, err := w.Commit([]drv.WriteSpec{{Key: []byte("zvictim"), Del: true}}); err != nil {
+			hookErr = err
+			return
+		}
+		if !w.AdvanceWatermark() {
+			hookErr = fmt.Errorf("the discard watermark did not reach the delete")
+			return
+		}
+		w.Flush()
+		if os.Getenv("VERIF_DEBUG") != "" {
+			fmt.Println("DEBUG in hook before compaction", w.Witness()["tables"], "discardTs", w.DB.VerifDiscardTs())
+		}
+		w.CompactForce(0, 1)
+		if os.Getenv("VERIF_DEBUG") != "" {
+			fmt.Println("DEBUG in hook after compaction", w.Witness()["tables"])
+		}
+	})
+	ok := w.GC(0.001)
+	w.DB.VerifSetGCPauseHook(nil)
+	if !ok || !fired || hookErr != nil {
+		c.Inconclusive(fmt.Sprintf("scenario delete-during-gc-rewrite: GC rewrite=%v hook fired=%v err=%v", ok, fired, hookErr))
+		return false
+	}
+	c.Count("gc.scenario.delete_during_rewrite", 1)
+	c.Distinct(fmt.Sprintf("scenario:delete-during-gc-rewrite|base=L%d|levels=%d", base, o.MaxLevels))
+	hist.CheckState(c, sig, w.DB, w.M, hist.StateOpts{})
+	return true
+}
+
+// scenarioGCWhileFlushPending: GC writes a still-referenced older version back into the active
+// memtable while the newest version of that key sits in an immutable memtable whose flush is held
+// at a schedule point; every read must keep returning the newest version.
+func scenarioGCWhileFlushPending(c *core.Ctx, sigPrefix, work string, idx int, r *rand.Rand) (ran bool) {
+	dir := filepath.Join(work, fmt.Sprintf("pend%d", idx))
+	_ = os.MkdirAll(dir, 0o755)
+	defer os.RemoveAll(dir)
+	sig := sigPrefix + "|scenario:gc-writeback-while-newer-version-awaits-flush"
+	// keepInf: the older version stays referenced by the LSM tree, so GC has to move it
+	o, _ := drvOptions(dir, 0)
+	o.MemTableSize = 1 << 20
+	o.ValueThreshold = 32
+	o.ValueLogMaxEntries = 24
+	o.MaxLevels = 3
+	o.NumLevelZeroTables = 1
+	o.NumVersionsToKeep = 1 << 30
+	db, err := drv.Open(o, false)
+	if err != nil {
+		c.Inconclusive("open: " + err.Error())
+		return false
+	}
+	w := &drv.World{C: c, Sig: sig, DB: db, Opt: o, M: model.New(), R: r, NextTs: 5}
+	hold := make(chan struct{})
+	var holding, held atomic.Bool
+	sched.Install(sched.Config{OnPoint: func(name string) {
+		if name == "flush.beforeCreate" && holding.Load() {
+			held.Store(true)
+			<-hold
+		}
+	}})
+	released := false
+	release := func() {
+		if !released {
+			released = true
+			holding.Store(false)
+			close(hold)
+		}
+	}
+	defer func() {
+		release()
+		sched.Uninstall()
+		_ = w.DB.Close()
+	}()
+	if _, err := w.Commit([]drv.WriteSpec{{Key: []byte("hot"), Len: 1500}}); err != nil {
+		return false
+	}
+	for round := 0; round < 2; round++ {
+		for i := 0; i < 18; i++ {
+			_, _ = w.Commit([]drv.WriteSpec{{Key: []byte(fmt.Sprintf("junk%02d", i)), Len: 2000, Discard: round == 1}})
+		}
+		w.Flush()
+		if round == 1 {
+			w.AdvanceWatermark()
+		}
+		w.CompactForce(0, 1)
+	}
+	// newest version of hot goes into a memtable that is rotated but whose flush is held
+	if _, err := w.Commit([]drv.WriteSpec{{Key: []byte("hot"), Len: 1700}}); err != nil {
+		return false
+	}
+	holding.Store(true)
+	if ok, err := w.DB.VerifRotateMemtable(); err != nil || !ok {
+		c.Inconclusive(fmt.Sprintf("scenario gc-while-flush-pending: rotate ok=%v err=%v", ok, err))
+		return false
+	}
+	deadline := time.Now().Add(5 * time.Second)
+	for !held.Load() && time.Now().Before(deadline) {
+		time.Sleep(time.Millisecond)
+	}
+	if !held.Load() {
+		c.Inconclusive("scenario gc-while-flush-pending: the flusher did not reach the schedule point")
+		return false
+	}
+	if !w.GC(0.001) {
+		c.Inconclusive("scenario gc-while-flush-pending: GC did not rewrite a file")
+		return false
+	}
+	c.Count("gc.scenario.gc_while_flush_pending", 1)
+	c.Distinct("scenario:gc-writeback-while-newer-version-awaits-flush")
+	hist.CheckState(c, sig+"|flush-held", w.DB, w.M, hist.StateOpts{})
+	release()
+	w.DB.VerifWaitFlushed(20 * time.Second)
+	hist.CheckState(c, sig+"|after-flush", w.DB, w.M, hist.StateOpts{})
+	return true
+}
+
 // scenarioOpenItem: an Item obtained by Txn.Get (or the current item of an open iterator) in a
 // still-open transaction must keep yielding its value after GC rewrote (and deleted) its vlog file.
 func scenarioOpenItem(c *core.Ctx, sigPrefix, work string, idx int, r *rand.Rand, viaIterator bool) (ran bool) {
@@ -151,6 +341,12 @@ func C15(c *core.Ctx) {
 	defer os.RemoveAll(work)
 	r := c.Rand("c15")
 	// (3) deterministic scenarios first: they decide the two listed findings on every run
+	for i := 0; i < c.Pick(2, 8); i++ {
+		scenarioDeleteDuringRewrite(c, "C15", work, i, r)
+	}
+	for i := 0; i < c.Pick(1, 4); i++ {
+		scenarioGCWhileFlushPending(c, "C15", work, i, r)
+	}
 	for i, managed := range []bool{false, true} {
 		if scenarioResurrect(c, "C15", work, i, r, managed) {
 			c.Eval(1)
